@@ -7,7 +7,7 @@ Line protocol of the `pdata` model (C11).  Registers hold annotated arrays.
   get K J INDEX                           register J := K[INDEX]   (repaired `__getitem__`)
   geto K J INDEX                          same with the code as found (used for the notes)
   fin K J                                 register J := result of arithmetic / copy / astype on K
-  set K s0|fs|ch|md VALUE                 attribute assignment
+  set K s0|fs|ch|md VALUE                 attribute assignment;  adds0 K D: s0 += D
   concat J time|channel|epoch K1,K2,…     register J := concat([K1, K2, …], axis)
   show K
 
@@ -42,9 +42,11 @@ def showMeta : Meta → String
 
 def showRat (r : Rat) : String := s!"{r.num}/{r.den}"
 
-def showPD (a : PD) : String :=
+def showPDHead (a : PD) : String :=
   let nep := match a.nEpochs with | none => "-" | some k => toString k
-  s!"arr shape={showList a.shape} s0={a.s0} fs={showRat a.fs} ch={showChan a.channel} md={showMeta a.metadata} nch={a.nChannels} nep={nep} t={showList (a.t.map showRat)} data={showList a.data}"
+  s!"arr shape={showList a.shape} s0={a.s0} fs={showRat a.fs} ch={showChan a.channel} md={showMeta a.metadata} nch={a.nChannels} nep={nep} t={showList (a.t.map showRat)}"
+
+def showPD (a : PD) : String := s!"{showPDHead a} data={showList a.data}"
 
 def parseChan? (s : String) : Option Chan :=
   if s.startsWith "s:" then some (.one (parseLabel (s.drop 2).toString))
@@ -132,7 +134,7 @@ def step (r : Regs) (ws : List String) : Regs × String :=
      | some k, some j =>
        (match r.get? k with
         | none => (r, "err no-register")
-        | some a => let b := finalize a a.shape a.data; (r.put j b, showPD b))
+        | some a => let b := finalize a a.shape a.data; (r.put j b, s!"{showPDHead b} data=*"))
      | _, _ => (r, "bad-op"))
   | ["set", k, field, v] =>
     (match parseNat? k with
@@ -151,6 +153,13 @@ def step (r : Regs) (ws : List String) : Regs × String :=
          match b with
          | none => (r, "bad-op")
          | some b => (r.put k b, showPD b))
+  | ["adds0", k, d] =>
+    (match parseNat? k, parseInt? d with
+     | some k, some d =>
+       (match r.get? k with
+        | none => (r, "err no-register")
+        | some a => let b := { a with s0 := a.s0 + d }; (r.put k b, showPD b))
+     | _, _ => (r, "bad-op"))
   | ["concat", j, dim, ks] =>
     (match parseNat? j, parseDim? dim, parseNats? ks with
      | some j, some dim, some ks =>
